@@ -229,7 +229,12 @@ def run_property(prop, tier, seed, only=None, dump=None):
                 known_hits.append((k, n))
         if res.error and res.error[0] == 'engine':
             k = match_known(known, u.short, 'engine')
-            if not k:
+            changed = bool(res.source) and lk.get('sha256') not in (None, res.source['sha256'])
+            if not k and changed and 'contract reads unknown name' in res.error[1]:
+                # the function was edited and a local the loop invariant / ghost clause names is gone (e.g. renamed): the
+                # contract no longer fits the text -- nothing is decided by proof; the run-time contract still speaks
+                res.error = ('unsupported', 'the contract names a local variable the edited function no longer has: ' + res.error[1][-160:])
+            elif not k:
                 crashes.append('%s: %s' % (u.short, res.error[1]))
         if not unknown_to_known and not res.error:
             continue
